@@ -151,10 +151,8 @@ func (o *concOutcome) sig() string {
 	var parts []string
 	for _, r := range o.Reqs {
 		cls := "ok"
-		if r.Code >= 500 {
-			cls = "error"
-		} else if r.Code >= 400 {
-			cls = "refused" // which 4xx a refused request gets is not part of the guarantee
+		if r.Code >= 400 {
+			cls = "refused" // which error status a refused request gets is not part of the guarantee (the handlers use 400, 401, 412 and 500 for refusals)
 		}
 		parts = append(parts, fmt.Sprintf("%s=%s/%s/%s", r.Op, cls, r.Upgrade, r.Effect))
 	}
